@@ -266,6 +266,7 @@ func applyProfile(c *RunConfig, ch *simrt.Chooser, p string) {
 		c.Ops["transfer"] = 2
 		c.Faults["isolate_leader"] = 3
 		c.Faults["crash_leader"] = 2
+		c.Faults["blip_leader"] = 3
 		if p == "C17" {
 			c.ShutdownAtEnd = true
 			c.Ops["shutdown"] = 1
@@ -308,8 +309,8 @@ func applyProfile(c *RunConfig, ch *simrt.Chooser, p string) {
 		c.Spares, c.NonVoters = 0, 0
 		c.PreVoteDisabled = []bool{false}
 		c.Voters = pick(ch, 3, 5, 5)
-		c.Faults = map[string]int{"partition": 3, "heal": 2}
-		c.Ops = map[string]int{"apply": 20, "barrier": 1}
+		c.Faults = map[string]int{"partition": 3, "heal": 2, "isolate_hot": 2}
+		c.Ops = map[string]int{"apply": 20, "barrier": 1, "transfer": pick(ch, 0, 1, 3)}
 	case "C18":
 		c.LeaderLeaseTimeout = c.HeartbeatTimeout / 2
 		c.Faults["isolate_leader"] = 5
@@ -333,6 +334,22 @@ func applyProfile(c *RunConfig, ch *simrt.Chooser, p string) {
 		c.HeartbeatTimeout, c.ElectionTimeout, c.LeaderLeaseTimeout = 10*time.Second, 10*time.Second, 10*time.Second
 		c.TransportTimeout = 200 * time.Millisecond
 		c.SnapshotInterval = time.Hour
+	case "C17b":
+		// a calm cluster whose leader usually survives to the end of the run, so that a future
+		// lost inside a short disturbance is still outstanding when the run is judged: the only
+		// faults are brief losses of the leader's links (shorter than the lease), placed inside
+		// VerifyLeader / Apply / Barrier calls, and the odd partition
+		c.Voters = pick(ch, 2, 3, 3, 5)
+		c.NonVoters = pick(ch, 0, 0, 1)
+		c.Spares = 0
+		c.Clients = rangeInt(ch, 2, 4)
+		c.ShutdownOnRemove = false
+		c.ShutdownAtEnd = true
+		c.Ops = map[string]int{"apply": 10, "barrier": 3, "verify": 8, "getconfig": 1, "snapshot": 1}
+		c.Faults = map[string]int{"blip_leader": 8, "partition": 1, "heal": 4}
+		c.LongDelayPct, c.SnapTruncPct = 0, 0
+		c.BugFSMSnapErrPct, c.BugPersistErrPct = 0, 0
+		c.DiskSlowPct, c.FSMSlowPct, c.NotifySlowPct = 0, 0, 0
 	case "clean", "C13b":
 		if p == "C13b" {
 			c.LeaseOracle = true
